@@ -5,7 +5,6 @@ package cache
 import (
 	"errors"
 	"fmt"
-	"sort"
 	"sync"
 	"time"
 
@@ -28,11 +27,6 @@ type Cache[k comparable, v any] struct {
 type Entry[v any] struct {
 	used  time.Time
 	value v
-}
-
-type sortKeys[k comparable] struct {
-	keys   []k
-	lessFn func(a, b k) bool
 }
 
 type Opts[k comparable, v any] struct {
@@ -247,25 +241,25 @@ func (c *Cache[k, v]) pruneCount() {
 	if c.minCount <= 0 || len(c.entries) <= c.minCount {
 		return
 	}
-	// sort key list by last used date
-	keyList := make([]k, 0, len(c.entries))
-	for key := range c.entries {
-		keyList = append(keyList, key)
-	}
-	sk := sortKeys[k]{
-		keys: keyList,
-		lessFn: func(a, b k) bool {
-			return c.entries[a].used.Before(c.entries[b].used)
-		},
-	}
-	sort.Sort(&sk)
-	delLen := len(keyList) - c.minCount
-	delCount := 0
-	for _, key := range keyList {
+	// Delete the least recently used entry until the count is reached.
+	// The order is evaluated again for every entry since the lock is released while a pre function runs.
+	failed := map[*Entry[v]]bool{}
+	for len(c.entries) > c.minCount {
+		var key k
+		var oldest *Entry[v]
+		for ek, e := range c.entries {
+			if !failed[e] && (oldest == nil || e.used.Before(oldest.used)) {
+				key, oldest = ek, e
+			}
+		}
+		if oldest == nil {
+			return
+		}
 		if c.pruneFn != nil {
+			used := oldest.used
 			e, ok := c.pruneLock(key)
-			if !ok {
-				// entry was removed while waiting for the pre function
+			if !ok || !e.used.Equal(used) {
+				// entry was removed or used while waiting for the pre function
 				c.pruneUnlock(key, e)
 				continue
 			}
@@ -273,14 +267,11 @@ func (c *Cache[k, v]) pruneCount() {
 			c.pruneUnlock(key, e)
 			if err != nil {
 				e.used = time.Now()
+				failed[e] = true
 				continue
 			}
 		}
 		delete(c.entries, key)
-		delCount++
-		if delCount >= delLen {
-			break
-		}
 	}
 }
 
@@ -306,16 +297,4 @@ func (c *Cache[k, v]) pruneUnlock(key k, e *Entry[v]) {
 	if e != nil && c.prunePostFn != nil {
 		c.prunePostFn(key, e.value)
 	}
-}
-
-func (sk *sortKeys[k]) Len() int {
-	return len(sk.keys)
-}
-
-func (sk *sortKeys[k]) Less(i, j int) bool {
-	return sk.lessFn(sk.keys[i], sk.keys[j])
-}
-
-func (sk *sortKeys[k]) Swap(i, j int) {
-	sk.keys[i], sk.keys[j] = sk.keys[j], sk.keys[i]
 }
